@@ -143,3 +143,13 @@
         (= (bits.allboolFrom a j n) (bits.allboolFrom c j n)))
        :pattern ((bits.allboolFrom a j n) (bits.allboolFrom c j n))))
   :induct (- n j) :reveal (bits.allboolFrom))
+
+; growing the inspected range at the upper end
+(lemma allboolFrom_snoc
+  (forall ((b (Array Int Int)) (j Int) (m Int))
+    (=> (<= j m) (= (bits.allboolFrom b j (+ m 1)) (and (bits.allboolFrom b j m) (bits.isbool (select b m))))))
+  :induct (- m j) :reveal (bits.allboolFrom))
+
+(lemma pow2_32 (= (bits.pow2 32) 4294967296) :reveal (bits.pow2))
+(lemma pow2_le_32 (forall ((n Int)) (=> (and (<= 0 n) (<= n 32)) (<= (bits.pow2 n) 4294967296)))
+  :lemmas (pow2_32 pow2_mono))
